@@ -11,6 +11,7 @@
 import Driver.Codec
 import Driver.Bt
 import Driver.Bb
+import Driver.Rd
 
 open Codec
 
@@ -54,6 +55,7 @@ partial def loop (hin hout : IO.FS.Stream) : IO Unit := do
         | "bt" => runBt body.toList
         | "bb" => runBb body.toList
         | "name" => runName body.toList
+        | "rd" => Rd.run body.toList
         | _ => ["bad-family"]
       for l in out do hout.putStrLn l
       hout.putStrLn "end"
